@@ -1,6 +1,6 @@
 ALL_MODES = [0, 1, 2, 3]
 _c01_common = dict(harness="C01_bottom_up.cpp", entries=["harness_c01"], units=CORE, unwind=26, checks="none", object_bits=13, witness_any=True,
-                   timeout={"quick": 900, "thorough": 2400}, mem_gb=6)
+                   timeout={"quick": 900, "thorough": 2400}, mem_gb=3)
 _DELS = [OP_DEL_V, OP_DEL_E, OP_DEL_F, OP_DEL_C]
 _SWAPS = [OP_SWAP_V, OP_SWAP_E, OP_SWAP_F, OP_SWAP_C]
 PROPS["C01"] = dict(
